@@ -23,6 +23,7 @@ func runStores(cfg Config) {
 	rnd := rand.New(rand.NewSource(cfg.Seed))
 	tf := NewTraceFile(cfg.Out)
 	defer tf.Close()
+	directedCreatorLosesFirstRoot(ctx, cfg, tf)
 	for i := 0; i < cfg.Programs; i++ {
 		folder := filepath.Join(cfg.Data, fmt.Sprintf("s%d", i))
 		env := sopenv.New(folder, decor.NewHub())
@@ -98,6 +99,34 @@ func runStores(cfg Config) {
 			childAudit(r, folder, p.Stores)
 		}
 		tf.Write(fmt.Sprintf("s%d", i), r.Rec.Take(), map[string]any{"program": p, "left": env.ListFiles()})
+		if os.Getenv("VERIF_KEEP_DATA") == "" {
+			os.RemoveAll(folder)
+		}
+	}
+}
+
+// directedCreatorLosesFirstRoot: T_a creates a store and adds key 1; T_b opens the new (uncommitted) store through
+// NewBtree, adds key 2 and commits first; T_a then commits: it loses the race for the first root, undoes its attempt,
+// refetches, merges and retries.  Both commits must succeed and the store must hold both keys (TxnStore decides).
+func directedCreatorLosesFirstRoot(ctx context.Context, cfg Config, tf *TraceFile) {
+	for vi, place := range []string{"node", "segment"} {
+		folder := filepath.Join(cfg.Data, fmt.Sprintf("sd%d", vi))
+		env := sopenv.New(folder, decor.NewHub())
+		env.Hub.Record = false
+		r := &Runner{Env: env, Rec: &Recorder{}, MaxTime: 20 * time.Second}
+		p := Program{Stores: []sopenv.StoreOpts{{Name: fmt.Sprintf("%sd%d_s0", cfg.Gen.Prefix, vi), Slot: 4, Unique: true, Placement: place}}}
+		ta, err := r.BeginTxn(ctx, "da", &p, TxnSpec{Mode: "w", New: []int{0}, End: "commit"})
+		if err == nil {
+			r.DoOp(ctx, ta, &p, OpSpec{Op: "Add", Store: 0, K: 1, V: "a"})
+			tb, err2 := r.BeginTxn(ctx, "db", &p, TxnSpec{Mode: "w", New: []int{0}, End: "commit"})
+			if err2 == nil {
+				r.DoOp(ctx, tb, &p, OpSpec{Op: "Add", Store: 0, K: 2, V: "b"})
+				r.End(ctx, tb)
+			}
+			r.End(ctx, ta)
+		}
+		r.Observe(ctx, &p)
+		tf.Write(fmt.Sprintf("sd%d", vi), r.Rec.Take(), map[string]any{"program": p, "directed": "creator-loses-first-root"})
 		if os.Getenv("VERIF_KEEP_DATA") == "" {
 			os.RemoveAll(folder)
 		}
